@@ -1,8 +1,27 @@
 package main
 
+// C01: incremental (partial) resync converges to the configuration of a full sync.
+//
+// One case = one history (`C01 hist <op> <op> ... `, op grammar of world/ops.go). The history runs on a
+// long-lived REAL pipeline (watchers -> converters + tracker -> instance -> files). After every sync
+//   * a fresh pipeline is started on the same cluster state, both normal forms are compared (verdict
+//     eq | diff:<first differing line> | err:<..>);
+//   * what the real controller did is recorded as one observation token per sync (see c01obs): the batch the
+//     real watchers produced (links, added/updated/deleted ingresses, full or partial), the number of dirty
+//     hosts/backends the real tracker returned (log line `syncing N host(s) and M backend(s)`), the names the
+//     instance reports as changed (`updating N host(s): [...]`), the connected components of the REAL tracker
+//     after the sync (read-only QueryLinks), and the hosts/paths/backends of the real haproxy model.
+// The Lean driver replays the same history on the model (watchers, trackAddedIngress, tracker closure,
+// re-synced ingress list, tracking calls of syncIngress) and must predict every observation.
+
 import (
 	"fmt"
+	"regexp"
+	"sort"
+	"strconv"
 	"strings"
+
+	convtypes "github.com/jcmoraisjr/haproxy-ingress/pkg/converters/types"
 
 	"hapverif/gen"
 	"hapverif/world"
@@ -20,46 +39,383 @@ func init() {
 func sanitize(s string) string {
 	s = strings.ReplaceAll(s, " ", "_")
 	s = strings.ReplaceAll(s, "\t", "_")
-	if len(s) > 400 {
-		s = s[:400]
+	if len(s) > 300 {
+		s = s[:300]
 	}
 	return s
 }
 
-func c01case(c *ctx, ops []string) world.RunResult {
-	res := world.RunHistory(ops, world.DefaultOptions(), true)
-	out := "eq"
-	switch {
-	case res.Err != "":
-		out = "err:" + sanitize(res.Err)
-	case res.Diff != "":
-		out = "diff:" + sanitize(res.Diff)
+var kindCode = map[convtypes.ResourceType]string{
+	convtypes.ResourceIngress: "I", convtypes.ResourceIngressClass: "C", convtypes.ResourceConfigMap: "M",
+	convtypes.ResourceService: "S", convtypes.ResourceEndpoints: "E", convtypes.ResourceSecret: "X",
+	convtypes.ResourcePod: "P", convtypes.ResourceHATCPService: "T", convtypes.ResourceHAHostname: "H",
+	convtypes.ResourceHABackend: "B", convtypes.ResourceHAUserlist: "U", convtypes.ResourceAcmeData: "A",
+}
+
+func code(k convtypes.ResourceType) string {
+	if c, ok := kindCode[k]; ok {
+		return c
 	}
-	c.emit("C01", "hist "+strings.Join(ops, " "), out)
-	c.stat(fmt.Sprintf("syncs_%02d", res.Syncs), 1)
+	return "?" + string(k)
+}
+
+// c01universe: every kubernetes object name a history can make the controller track (seeds of the
+// read-only tracker queries). Every tracker edge has at least one such end.
+func c01universe(ops []string) convtypes.TrackingLinks {
+	set := map[convtypes.ResourceType]map[string]bool{}
+	add := func(k convtypes.ResourceType, n string) {
+		if set[k] == nil {
+			set[k] = map[string]bool{}
+		}
+		set[k][n] = true
+	}
+	for _, o := range ops {
+		switch {
+		case strings.HasPrefix(o, "ing+"), strings.HasPrefix(o, "ing~"):
+			s, err := world.ParseIngress(o[4:])
+			if err != nil {
+				continue
+			}
+			ns := s.Namespace
+			add(convtypes.ResourceIngress, ns+"/"+s.Name)
+			if s.ClassName != nil {
+				add(convtypes.ResourceIngressClass, *s.ClassName)
+			}
+			for _, r := range s.Rules {
+				for _, p := range r.Paths {
+					add(convtypes.ResourceService, ns+"/"+p.Svc)
+					add(convtypes.ResourceEndpoints, ns+"/"+p.Svc)
+				}
+			}
+			if s.DefaultBackend != nil {
+				add(convtypes.ResourceService, ns+"/"+s.DefaultBackend.Svc)
+				add(convtypes.ResourceEndpoints, ns+"/"+s.DefaultBackend.Svc)
+			}
+			for _, t := range s.TLS {
+				add(convtypes.ResourceSecret, ns+"/"+t.Secret)
+				add(convtypes.ResourceSecret, t.Secret)
+			}
+			for _, v := range s.Annotations {
+				// annotation values may name secrets or services (auth-secret, auth-tls-secret, auth-url svc://..)
+				add(convtypes.ResourceSecret, ns+"/"+v)
+				add(convtypes.ResourceSecret, v)
+				if i := strings.Index(v, "://"); i >= 0 {
+					h := v[i+3:]
+					if j := strings.IndexAny(h, ":/"); j >= 0 {
+						h = h[:j]
+					}
+					add(convtypes.ResourceService, ns+"/"+h)
+					add(convtypes.ResourceEndpoints, ns+"/"+h)
+				}
+			}
+		case strings.HasPrefix(o, "ing-"):
+			add(convtypes.ResourceIngress, o[4:])
+		case strings.HasPrefix(o, "svc"):
+			k := strings.SplitN(o[4:], "!", 2)[0]
+			add(convtypes.ResourceService, k)
+			add(convtypes.ResourceEndpoints, k)
+		case strings.HasPrefix(o, "ep"):
+			k := strings.SplitN(o[3:], "!", 2)[0]
+			add(convtypes.ResourceEndpoints, k)
+			add(convtypes.ResourceService, k)
+		case strings.HasPrefix(o, "sec"):
+			add(convtypes.ResourceSecret, strings.SplitN(o[4:], "!", 2)[0])
+		case strings.HasPrefix(o, "cls"):
+			add(convtypes.ResourceIngressClass, strings.SplitN(o[4:], ":", 2)[0])
+		case strings.HasPrefix(o, "pod"):
+			add(convtypes.ResourcePod, strings.SplitN(o[4:], "!", 2)[0])
+		}
+	}
+	res := convtypes.TrackingLinks{}
+	for k, m := range set {
+		for n := range m {
+			res[k] = append(res[k], n)
+		}
+		sort.Strings(res[k])
+	}
 	return res
 }
 
-func runC01(c *ctx) {
-	r := gen.New(c.seed)
-	n := 150
-	if c.thorough() {
-		n = 5000
+func flatLinks(l convtypes.TrackingLinks) []string {
+	var res []string
+	for k, names := range l {
+		for _, n := range names {
+			res = append(res, code(k)+":"+n)
+		}
 	}
-	shrunk := 0
+	sort.Strings(res)
+	return res
+}
+
+// c01partition: connected components of the real tracker, by read-only queries.
+func c01partition(tr convtypes.Tracker, universe convtypes.TrackingLinks) string {
+	all := tr.QueryLinks(universe, false)
+	type node struct {
+		k convtypes.ResourceType
+		n string
+	}
+	var nodes []node
+	for k, names := range all {
+		for _, n := range names {
+			nodes = append(nodes, node{k, n})
+		}
+	}
+	sort.Slice(nodes, func(i, j int) bool {
+		return code(nodes[i].k)+":"+nodes[i].n < code(nodes[j].k)+":"+nodes[j].n
+	})
+	seen := map[node]bool{}
+	var comps []string
+	for _, nd := range nodes {
+		if seen[nd] {
+			continue
+		}
+		comp := tr.QueryLinks(convtypes.TrackingLinks{nd.k: {nd.n}}, false)
+		for k, names := range comp {
+			for _, n := range names {
+				seen[node{k, n}] = true
+			}
+		}
+		seen[nd] = true
+		comps = append(comps, strings.Join(flatLinks(comp), ","))
+	}
+	sort.Strings(comps)
+	return strings.Join(comps, "|")
+}
+
+var (
+	reSyncing  = regexp.MustCompile(`syncing (\d+) host\(s\) and (\d+) backend\(s\)`)
+	reUpdHosts = regexp.MustCompile(`updating (\d+) host\(s\): \[(.*)\]`)
+	reUpdBacks = regexp.MustCompile(`updating (\d+) backend\(s\): \[(.*)\]`)
+)
+
+func ingKeys[T interface{ GetNamespace() string; GetName() string }](l []T) string {
+	ks := make([]string, len(l))
+	for i, o := range l {
+		ks[i] = o.GetNamespace() + "/" + o.GetName()
+	}
+	sort.Strings(ks)
+	return strings.Join(ks, ",")
+}
+
+// c01obs renders what the real controller did in one sync (one blank-free token).
+func c01obs(p *world.Pipeline, ch *convtypes.ChangedObjects, lines []string, universe convtypes.TrackingLinks) string {
+	full := true
+	n, m := "-", "-"
+	uh, ub := "", ""
+	for _, l := range lines {
+		if g := reSyncing.FindStringSubmatch(l); g != nil {
+			full = false
+			n, m = g[1], g[2]
+		}
+		if g := reUpdHosts.FindStringSubmatch(l); g != nil {
+			f := strings.Fields(g[2])
+			sort.Strings(f)
+			uh = strings.Join(f, ",")
+		}
+		if g := reUpdBacks.FindStringSubmatch(l); g != nil {
+			f := strings.Fields(g[2])
+			sort.Strings(f)
+			ub = strings.Join(f, ",")
+		}
+	}
+	mode := "P"
+	if full {
+		mode = "F"
+	}
+	var hs []string
+	cfg := p.Instance.Config()
+	for name, h := range cfg.Hosts().Items() {
+		if len(h.Paths) == 0 {
+			hs = append(hs, name+"^^^")
+		}
+		for _, hp := range h.Paths {
+			b := hp.Backend.ID
+			if hp.RedirTo != "" {
+				b = "redir"
+			}
+			hs = append(hs, name+"^"+hp.Path()+"^"+string(hp.Match())+"^"+b)
+		}
+	}
+	sort.Strings(hs)
+	var bs []string
+	for id := range cfg.Backends().Items() {
+		bs = append(bs, id)
+	}
+	sort.Strings(bs)
+	return strings.Join([]string{
+		mode,
+		"L=" + strings.Join(flatLinks(ch.Links), ","),
+		"A=" + ingKeys(ch.IngressesAdd),
+		"U=" + ingKeys(ch.IngressesUpd),
+		"D=" + ingKeys(ch.IngressesDel),
+		"n=" + n + "," + m,
+		"uh=" + uh,
+		"ub=" + ub,
+		"P=" + c01partition(p.Tracker, universe),
+		"H=" + strings.Join(hs, ","),
+		"B=" + strings.Join(bs, ","),
+	}, ";")
+}
+
+func c01firstDiff(a, b string) string {
+	la, lb := strings.Split(a, "\n"), strings.Split(b, "\n")
+	for i := 0; i < len(la) || i < len(lb); i++ {
+		x, y := "<end>", "<end>"
+		if i < len(la) {
+			x = la[i]
+		}
+		if i < len(lb) {
+			y = lb[i]
+		}
+		if x != y {
+			return fmt.Sprintf("long[%s] fresh[%s]", x, y)
+		}
+	}
+	return ""
+}
+
+type c01result struct {
+	verdict string // eq | diff:.. | err:..
+	obs     []string
+	syncs   int
+	partial int
+}
+
+// c01run: the history on a long-lived pipeline, compared with a fresh pipeline after every sync.
+func c01run(ops []string, observe bool) (res c01result) {
+	defer func() {
+		if r := recover(); r != nil {
+			res.verdict = "err:PANIC-" + sanitize(fmt.Sprint(r))
+		}
+	}()
+	res.verdict = "eq"
+	opt := world.DefaultOptions()
+	opt.KeepLog = true
+	w := world.NewWorld()
+	p, err := world.NewPipeline(w, opt)
+	if err != nil {
+		res.verdict = "err:" + sanitize(err.Error())
+		return
+	}
+	defer p.Close()
+	reqs, snis := world.RequestsFor(ops)
+	universe := c01universe(ops)
+	fopt := world.DefaultOptions()
+	compare := func() bool {
+		f, err := world.NewPipeline(w, fopt)
+		if err != nil {
+			res.verdict = "err:" + sanitize(err.Error())
+			return false
+		}
+		defer f.Close()
+		f.Startup()
+		if _, err := f.Reconcile(); err != nil {
+			res.verdict = "err:fresh-" + sanitize(err.Error())
+			return false
+		}
+		if d := c01firstDiff(p.Snapshot(reqs, snis).Text(), f.Snapshot(reqs, snis).Text()); d != "" {
+			res.verdict = "diff:" + sanitize(d)
+			return false
+		}
+		return true
+	}
+	all := ops
+	if len(all) == 0 || all[len(all)-1] != "sync" {
+		all = append(append([]string(nil), all...), "sync")
+	}
+	for _, o := range all {
+		if o == "sync" {
+			p.Log.Lines = nil
+			ch, err := p.Reconcile()
+			if err != nil {
+				if strings.HasPrefix(err.Error(), "PANIC") {
+					res.verdict = "err:" + sanitize(err.Error())
+				} else {
+					res.verdict = "err:long-" + sanitize(err.Error())
+				}
+				return
+			}
+			res.syncs++
+			if observe {
+				ob := c01obs(p, ch, p.Log.Lines, universe)
+				if ob[0] == 'P' {
+					res.partial++
+				}
+				res.obs = append(res.obs, ob)
+			}
+			if !compare() {
+				return
+			}
+			continue
+		}
+		evs, err := w.Apply(world.Op{Text: o})
+		if err != nil {
+			res.verdict = "err:" + sanitize(err.Error())
+			return
+		}
+		p.Deliver(evs)
+	}
+	return
+}
+
+func c01case(c *ctx, ops []string) c01result {
+	res := c01run(ops, true)
+	c.emit("C01", "hist "+strings.Join(ops, " "), strings.Join(append([]string{res.verdict}, res.obs...), " "))
+	c.stat(fmt.Sprintf("syncs_%02d", res.syncs), 1)
+	c.stat("partial_syncs", res.partial)
+	c.stat("verdict_"+strings.SplitN(res.verdict, ":", 2)[0], 1)
+	return res
+}
+
+// corpus of minimised past failures (each one is the replay of a repaired or known difference)
+var c01corpus = []string{
+	// d291cc7 create+update in one batch
+	"sync ing+d/i1@1!haproxy,-!-!-!-!- ing~d/i1@1!haproxy,-!-!_>/a:_:api:http!-!-",
+	// fb14c7f tls-only hosts pre-tracked
+	"sec+e/tls1!tls!1!a.local+b.local ing+e/i1@2!haproxy,-!-!-!b.local>tls1!- sync ing~d/i4@2!haproxy,-!-!-!b.local>tls1!-",
+	// 546cb55 IngressClass appears later
+	"ing+d/i4@2!-,hap!-!_>/b:Exact:api:80!-!- sync cls+hap:haproxy-ingress.github.io/controller",
+	// 771d5f6 updated but untracked ingress
+	"svc+e/api!http:80:8080+adm:81:adm!- ing~e/i3@3!haproxy,-!-!-!-!- sync ing~e/i3@3!haproxy,-!-!-!-!api:80",
+	// aa24a49 default host pre-tracked
+	"svc+e/web!http:80:8080+adm:81:adm!- cls+hap:haproxy-ingress.github.io/controller ing~e/i1@1!-,hap!-!_>/App:ImplementationSpecific:api:80!-!- sync ing+e/i5@2!haproxy,-!-!-!-!web:80",
+	// 28a4cee loser of the duplicated default backend
+	"svc+d/api!http:80:8080+adm:81:adm!- svc+e/web!http:80:8080+adm:81:adm!- ing~d/i3@2!haproxy,-!-!-!-!api:80 ing+e/i5@3!haproxy,-!-!-!-!web:80 sync ing~d/i3@2!other,-!-!-!-!-",
+	// finding 1: a skipped (redeclared) path that becomes the owner lands on a surviving backend
+	"svc+d/app!http:80:8080!- ep~d/app!10.0.1.1:r:app-1 svc+d/api!http:80:8080!- ep~d/api!10.0.2.1:r:api-1 ing+d/i1@1!haproxy,-!-!a.local>/a:Prefix:app:80!-!- ing+d/i2@2!haproxy,-!balance-algorithm=leastconn!a.local>/a:Prefix:api:80!-!- ing+d/i3@3!haproxy,-!-!b.local>/:Prefix:api:80!-!- sync ing-d/i1 sync",
+}
+
+func runC01(c *ctx) {
+	for _, h := range c01corpus {
+		c01case(c, strings.Fields(h))
+	}
+	r := gen.New(c.seed)
+	n := 140
+	if c.thorough() {
+		n = 4000
+	}
+	shrunk := map[string]bool{}
 	for i := 0; i < n; i++ {
-		g := world.NewGen(r.Fork(), world.DefaultGen())
-		ops := g.History()
+		var ops []string
+		if i%3 == 0 {
+			ops = world.NewGen(r.Fork(), world.DefaultGen()).History()
+		} else {
+			ops = newC01Gen(r.Fork(), i%3 == 2).history()
+		}
 		res := c01case(c, ops)
-		if res.Diff != "" && shrunk < 25 {
-			// minimise and emit the minimal history as an additional case (it becomes the replay)
-			shrunk++
+		if strings.HasPrefix(res.verdict, "diff:") && len(shrunk) < 12 {
+			// minimise; the minimal history is emitted as an additional case (it becomes the replay)
 			min := world.Shrink(ops, func(o []string) bool {
-				rr := world.RunHistory(o, world.DefaultOptions(), true)
-				return rr.Diff != "" && rr.Err == ""
-			}, 400)
-			c01case(c, min)
-			c.stat("shrunk", 1)
+				return strings.HasPrefix(c01run(o, false).verdict, "diff:")
+			}, 300)
+			key := strings.Join(min, " ")
+			if !shrunk[key] {
+				shrunk[key] = true
+				c01case(c, min)
+				c.stat("shrunk", 1)
+			}
 		}
 	}
 }
+
+var _ = strconv.Itoa
